@@ -18,7 +18,7 @@ RULE = ("single level: full product {unsigned, signed by key A} x {error, skip, 
         "executed on the real envelope of that state and compared with the model (conformance on every transition). "
         "recursive: every rooted tree shape with depth<=3, <=2 children, <=5 nodes; per node the configuration points "
         "{sign, omit-signing with/without key fields, not named} x algorithm own/inherited x key match/mismatch x "
-        "input unsigned/signed x already-signed action x structural faults {absent, raw payload, bstr that is not a tag, "
+        "input unsigned/signed x already-signed action x KMS context own/inherited (path or JSON form) x scripts from configuration/environment x structural faults {absent, raw payload, bstr that is not a tag, "
         "undecodable}; deviation-bounded exploration from 'every node named and signed with its own key'. Oracle: a "
         "reference model of expected signers per node; every named node carries exactly the expected signature "
         "(verified with that node's public key and key id), all manifests and unnamed members byte-identical, "
@@ -297,12 +297,21 @@ def recursive_scenario(shape):
     def sc(ch, agg):
         counter = itertools.count()
 
-        def node(t, path, root, parent_alg):
+        def node(t, path, root, parent_alg, parent_ctx="main"):
             n = next(counter)
             cfg = {"id": n, "path": path, "children": []}
             cfg["mode"] = ch.choose(f"{path}.mode", ["sign", "omit+keys", "omit-nokeys"] + ([] if root else ["unnamed"]))
             cfg["fault"] = "none" if root else ch.choose(f"{path}.fault", FAULTS)
             cfg["input"] = ch.choose(f"{path}.input", ["unsigned", "signed"])
+            if root:
+                cfg["scripts"] = ch.choose("scripts-from", ["configuration", "environment"])
+                cfg["ctx"] = "main"
+            elif cfg["mode"] != "unnamed":
+                # a node may name its own KMS context (another key directory in which the same key names hold other keys);
+                # without one it inherits its parent's
+                own = ch.choose(f"{path}.context", ["inherit", "own", "own-json"])
+                cfg["ctx_cfg"] = own
+                cfg["ctx"] = parent_ctx if own == "inherit" else "alt"
             if cfg["mode"] != "unnamed":
                 cfg["alg_cfg"] = ch.choose(f"{path}.alg", ["inherit", "es-256", "eddsa"])
                 cfg["alg"] = parent_alg if cfg["alg_cfg"] == "inherit" else cfg["alg_cfg"]
@@ -315,7 +324,7 @@ def recursive_scenario(shape):
                 if cfg["mode"] == "unnamed" or cfg["fault"] != "none":
                     cfg["children"].append(plain(c, f"{path}/d{i}"))
                 else:
-                    cfg["children"].append(node(c, f"{path}/d{i}", False, cfg["alg"]))
+                    cfg["children"].append(node(c, f"{path}/d{i}", False, cfg["alg"], cfg.get("ctx", parent_ctx)))
             return cfg
 
         def plain(t, path):
@@ -332,6 +341,11 @@ def node_key(cfg):
     right = "p256" if cfg["alg"] == "es-256" else "ed25519"
     wrong = "ed25519" if cfg["alg"] == "es-256" else "p256"
     return f"{wrong if cfg.get('mismatch') else right}_n{cfg['id']}"
+
+
+def node_identity(cfg):
+    """the harness key that must verify this node's signature: the key of that NAME in the node's effective context."""
+    return node_key(cfg) + ("_alt" if cfg.get("ctx") == "alt" else "")
 
 
 def node_kid(cfg):
@@ -368,7 +382,13 @@ def config_json(cfg, root=True):
     c = {}
     s, k = scripts()
     if root:
-        c["sign-script"], c["kms-script"], c["context"] = s, k, vkeys.key_dir()
+        c["context"] = vkeys.key_dir()
+        if cfg.get("scripts", "configuration") == "configuration":
+            c["sign-script"], c["kms-script"] = s, k
+    elif cfg.get("ctx_cfg") == "own":
+        c["context"] = vkeys.key_dir_alt()
+    elif cfg.get("ctx_cfg") == "own-json":
+        c["context"] = json.dumps({"keys_directory": vkeys.key_dir_alt()})
     if cfg["mode"] in ("omit+keys", "omit-nokeys"):
         c["omit-signing"] = True
     if cfg["mode"] != "omit-nokeys":
@@ -430,8 +450,18 @@ def run_recursive(tree, ch, agg):
         i, o, cf = os.path.join(d, "in.suit"), os.path.join(d, "out.suit"), os.path.join(d, "cfg.json")
         open(i, "wb").write(b)
         json.dump(config_json(tree), open(cf, "w"))
+        saved = {k: os.environ.get(k) for k in ("NCS_SUIT_SIGN_SCRIPT", "NCS_SUIT_KMS_SCRIPT", "ZEPHYR_BASE")}
+        if tree.get("scripts") == "environment":
+            os.environ["NCS_SUIT_SIGN_SCRIPT"], os.environ["NCS_SUIT_KMS_SCRIPT"] = scripts()
         try:
-            cmd_sign.main(sign_subcommand="recursive", input_envelope=i, output_envelope=o, configuration=cf)
+            try:
+                cmd_sign.main(sign_subcommand="recursive", input_envelope=i, output_envelope=o, configuration=cf)
+            finally:
+                for k, v in saved.items():
+                    if v is None:
+                        os.environ.pop(k, None)
+                    else:
+                        os.environ[k] = v
         except Exception as e:
             if exp == "refuse":
                 if os.path.exists(o):
@@ -478,9 +508,9 @@ def run_recursive(tree, ch, agg):
             if len(obk) != want_n:
                 problems.append(("signature-count", f"{c['path']}: {len(obk)} signatures, expected {want_n}"))
             else:
-                bad = verify_block(ob, obk[-1], node_key(c), c["alg"], node_kid(c))
+                bad = verify_block(ob, obk[-1], node_identity(c), c["alg"], node_kid(c))
                 if bad:
-                    problems.append(("wrong-signer", f"{c['path']}: signature does not verify under this node's own key {node_key(c)} / key id {node_kid(c)}: {bad}"))
+                    problems.append(("wrong-signer", f"{c['path']}: signature does not verify under this node's own key {node_identity(c)} (context {c.get('ctx')}) / key id {node_kid(c)}: {bad}"))
         for idx, cc in enumerate(c["children"]):
             n = f"#d{idx}"
             if cc["fault"] == "absent":
